@@ -103,10 +103,15 @@ func Load(dir string, goos, goarch string, overlay map[string][]byte, full bool)
 		if cur == nil {
 			cur = map[string][]byte{}
 		}
-		for round := 0; round < 8; round++ {
+		for round := 0; round < 11; round++ {
 			phase := 1
-			if round < 2 {
-				phase = round - 1 // -1: types, 0: functions and fields
+			// type renames are undone in up to four rounds: a renamed type whose fields
+			// mention another renamed type only matches its pinned structure once that one
+			// has been renamed back
+			if round < 4 {
+				phase = -1
+			} else if round == 4 {
+				phase = 0
 			}
 			next, notes, changed := normalizeStep(pkgs, cur, phase, &seq)
 			if !changed {
